@@ -1,19 +1,45 @@
 #!/usr/bin/env python3
-"""Developer tool: run every K-lex harness matching a regex under a timeout and print a cost table (not a registered check)."""
+"""Developer tool: run K-lex harnesses under a timeout and write a cost table (not a registered check).
+usage: cost_table.py <name-regex> <timeout-s> [features] [--missing] [--max-default-cost N] [--defs A,B,..]"""
 import sys, os, re, json, time
 sys.path.insert(0, os.path.join(os.path.dirname(os.path.abspath(__file__)), '..', 'lib'))
 import kani_engine as K
-pat = re.compile(sys.argv[1] if len(sys.argv) > 1 else '.')
-timeout = int(sys.argv[2]) if len(sys.argv) > 2 else 300
-feats = tuple(f for f in (sys.argv[3].split(',') if len(sys.argv) > 3 else []) if f)
+args = sys.argv[1:]
+flags = {}
+pos = []
+i = 0
+while i < len(args):
+    if args[i] == '--missing': flags['missing'] = True; i += 1
+    elif args[i] == '--max-default-cost': flags['maxdef'] = float(args[i + 1]); i += 2
+    elif args[i] == '--defs': flags['defs'] = set(args[i + 1].split(',')); i += 2
+    else: pos.append(args[i]); i += 1
+pat = re.compile(pos[0] if pos else '.')
+timeout = int(pos[1]) if len(pos) > 1 else 300
+feats = tuple(f for f in (pos[2].split(',') if len(pos) > 2 else []) if f)
+config = '+'.join(feats) or 'default'
+ROOT = os.path.abspath(os.path.join(os.path.dirname(os.path.abspath(__file__)), '..'))
+cp = os.path.join(ROOT, 'kani', 'lex', 'costs.json')
+costs = json.load(open(cp)) if os.path.exists(cp) else {}
 d = K.prepare('lex', os.environ.get('VERIF_REPO', '/repo'))
-idx = json.load(open(os.path.join(d, 'src', 'harness_index.json')))
-hs = [h for h in idx if pat.search(h)]
-print('running %d harnesses, timeout %d, features %s' % (len(hs), timeout, feats), flush=True)
+idx = K.full_index(d)
+hs = []
+for h, m in idx.items():
+    if not pat.search(h): continue
+    if flags.get('defs') and m['d'] not in flags['defs']: continue
+    if flags.get('missing') and h in costs.get(config, {}): continue
+    if 'maxdef' in flags:
+        c = costs.get('default', {}).get(h)
+        if c is None or c > flags['maxdef']: continue
+    hs.append(h)
+print('running %d harnesses, timeout %d, config %s' % (len(hs), timeout, config), flush=True)
+K.restrict(d, hs)
 r = K.run_pool(d, hs, features=feats, timeout=timeout)
 print('wall', r['wall_s'], 'build_error', r['build_error'])
 tab = {}
 for k, v in sorted(r['results'].items()):
     tab[k] = dict(status=v['status'], t=v['time_s'], failed=v['failed_checks'][:3], covers=v['covers'], err=(v.get('error') or '')[-200:])
     print('%-50s %-8s %8s  %s %s' % (k, v['status'], v['time_s'], v['failed_checks'][:2], (v.get('error') or '')[-120:].replace('\n', ' ')), flush=True)
-json.dump(tab, open(os.path.join(os.path.dirname(os.path.abspath(__file__)), '..', '.work', 'cost_%s.json' % re.sub(r'\W+', '_', sys.argv[1] if len(sys.argv) > 1 else 'all')), 'w'), indent=0)
+out = os.path.join(ROOT, '.work', 'cost_%s_%d.json' % (config.replace('+', '_'), int(time.time())))
+os.makedirs(os.path.dirname(out), exist_ok=True)
+json.dump(tab, open(out, 'w'), indent=0)
+print('wrote', out)
